@@ -5,7 +5,7 @@
    stages.rs.  The remaining rules are decided by the exhaustive single- and double-fault search
    (evidence: tested, not proved). *)
 From Coq Require Import List NArith ZArith Bool String Permutation.
-From Verif Require Import Model.Analyzer Gen.GenStages Proofs.AnalyzerProofs Base.Text Model.Scope Proofs.ScopeProofs.
+From Verif Require Import Model.Analyzer Gen.GenStages Proofs.AnalyzerProofs Base.Text Model.Scope Proofs.ScopeProofs Gen.GenRules Model.Rules Proofs.RulesProofs.
 Import ListNotations.
 
 (* P0003 / P0005: the scan reports nothing exactly when the names are pairwise distinct, and the verdict
@@ -61,3 +61,72 @@ Example C02_example :
   rule_subrange (true, 5%N) (true, 6%N) = 1%N /\ rule_subrange (true, 6%N) (false, 0%N) = 0%N /\
   rule_subrange (true, 0%N) (false, 0%N) = 1%N.
 Proof. vm_compute. repeat split; reflexivity. Qed.
+
+(* ---- the rules on declarations, invocations and configurations (Model/Rules.v; the models are run against the rule
+        modules themselves on the facts of every generated library) ---- *)
+(* P0016: accepted exactly when every CONSTANT that is not VAR_EXTERNAL has an initial value *)
+Theorem C02_const_initialized_exact : forall fs,
+  rule_const_init fs = [] <-> forall v, In (FVar v) fs -> const_status v = CsOk.
+Proof. exact rule_const_init_exact. Qed.
+
+(* P0017: accepted exactly when no function block instance is declared CONSTANT; each one is reported where it stands *)
+Theorem C02_const_not_fb_exact : forall fs,
+  rule_const_not_fb fs = [] <-> forall v, In (FVar v) fs -> is_const v = true -> is_fb v = false.
+Proof. exact rule_const_not_fb_exact. Qed.
+
+(* P0018: accepted exactly when no non-constant VAR_EXTERNAL carries the name of a VAR_GLOBAL CONSTANT variable *)
+Theorem C02_external_of_constant_global_exact : forall fs,
+  rule_global_const fs = [] <->
+  (forall v, In (FVar v) fs -> gconst v = true -> v_name v <> None) /\
+  (forall e n, In (FVar e) fs -> ext_nonconst e = true -> v_name e = Some n ->
+   forall v m, In (FVar v) fs -> gconst v = true -> v_name v = Some m -> key m <> key n).
+Proof. exact rule_global_const_exact. Qed.
+
+(* P0011: accepted exactly when every program's WITH task is a task of its resource *)
+Theorem C02_task_defined_exact : forall fs,
+  rule_task fs = [] <->
+  forall tasks progs, In (FRes tasks progs) fs -> forall t pos, In (Some (t, pos)) progs -> task_known tasks t.
+Proof. exact rule_task_exact. Qed.
+
+(* P0012 / P0013 / P0014: accepted exactly when the type of every enumerated initial value leads through aliases to an
+   enumeration and the value is among its values; the walk through the aliases never runs out of fuel *)
+Theorem C02_enumerated_value_exact : forall fs,
+  rule_enum_value fs = [] <-> forall ty tpos value, In (FEnumInit ty tpos value) fs -> init_ok (enum_defs fs) ty value.
+Proof. exact rule_enum_value_exact. Qed.
+
+Theorem C02_alias_walk_terminates : forall m k p, chase m (S (List.length m)) [] k p <> None.
+Proof. exact chase_fuel. Qed.
+
+(* P0006 .. P0009: what an invocation must satisfy against the callee's declaration *)
+Theorem C02_invocation_check_exact : forall fb pos args,
+  check_call fb pos args = None <->
+  (formal_names args = [] \/ positional args = 0%nat) /\
+  (forall n, In n (formal_names args) -> has_input fb n = true) /\
+  (positional args = 0%nat \/ positional args = count_inputs fb) /\
+  (forall n, In n (out_names args) -> has_output fb n = true).
+Proof. exact check_call_exact. Qed.
+
+(* ... and a library passes exactly when each of its units passes by itself against the table of function blocks *)
+Theorem C02_invocations_by_unit : forall bs,
+  rule_fb_call (stream bs) = [] <-> forall b, In b bs -> fb_walk (fb_defs (stream bs)) [] b = [].
+Proof. exact rule_fb_call_units. Qed.
+
+(* P0029: accepted exactly when no instance names an unsupported standard function block (list regenerated from stdlib.rs) *)
+Theorem C02_unsupported_standard_type_exact : forall fs,
+  rule_stdlib fs = [] <-> forall ty pos, In (FFbInit ty pos) fs -> ~ In (key ty) unsupported_types.
+Proof. exact rule_stdlib_exact. Qed.
+
+(* the models report only the problems their rule modules name (table regenerated from the sources on every run) *)
+Theorem C02_rule_models_report_the_rules_problems : forall fs d,
+  (In d (rule_const_init fs) -> code_allowed "rule_var_decl_const_initialized" (fst d)) /\
+  (In d (rule_const_not_fb fs) -> code_allowed "rule_var_decl_const_not_fb" (fst d)) /\
+  (In d (rule_global_const fs) -> code_allowed "rule_var_decl_global_const_requires_external_const" (fst d)) /\
+  (In d (rule_task fs) -> code_allowed "rule_program_task_definition_exists" (fst d)) /\
+  (In d (rule_enum_value fs) -> code_allowed "rule_use_declared_enumerated_value" (fst d)) /\
+  (In d (rule_fb_call fs) -> code_allowed "rule_function_block_invocation" (fst d)) /\
+  (In d (rule_stdlib fs) -> code_allowed "rule_unsupported_stdlib_type" (fst d)).
+Proof.
+  intros fs d. repeat split;
+    [apply rule_const_init_codes | apply rule_const_not_fb_codes | apply rule_global_const_codes | apply rule_task_codes
+    | apply rule_enum_value_codes | apply rule_fb_call_codes | apply rule_stdlib_codes].
+Qed.
